@@ -77,8 +77,13 @@ Error BaseBuilder::new_inst_node(Out<InstNode*> out, InstId inst_id, InstOptions
 Error BaseBuilder::new_label_node(Out<LabelNode*> out) {
   out = nullptr;
 
-  ASMJIT_PROPAGATE(new_node_t<LabelNode>(out));
-  return register_label_node(*out);
+  // `out` is only assigned after the label was registered - a node that has no label must never be handed out.
+  LabelNode* node = nullptr;
+  ASMJIT_PROPAGATE(new_node_t<LabelNode>(Out(node)));
+  ASMJIT_PROPAGATE(register_label_node(node));
+
+  out = node;
+  return Error::kOk;
 }
 
 Error BaseBuilder::new_align_node(Out<AlignNode*> out, AlignMode align_mode, uint32_t alignment) {
@@ -120,8 +125,15 @@ Error BaseBuilder::new_embed_data_node(Out<EmbedDataNode*> out, TypeId type_id, 
 Error BaseBuilder::new_const_pool_node(Out<ConstPoolNode*> out) {
   out = nullptr;
 
-  ASMJIT_PROPAGATE(new_node_t<ConstPoolNode>(out, _builder_arena));
-  return register_label_node(*out);
+  // `out` is only assigned after the label was registered. BaseCompiler::_new_const() passes its `_const_pools[scope]`
+  // slot as `out` - a node left there without a label (its id would be the constructor's default 0) would be used by
+  // the next new_const() call, which would then return operands that refer to label #0.
+  ConstPoolNode* node = nullptr;
+  ASMJIT_PROPAGATE(new_node_t<ConstPoolNode>(Out(node), _builder_arena));
+  ASMJIT_PROPAGATE(register_label_node(node));
+
+  out = node;
+  return Error::kOk;
 }
 
 Error BaseBuilder::new_comment_node(Out<CommentNode*> out, const char* data, size_t size) {
@@ -544,7 +556,7 @@ Label BaseBuilder::new_named_label(const char* name, size_t name_size, LabelType
 }
 
 Error BaseBuilder::bind(const Label& label) {
-  LabelNode* node;
+  LabelNode* node = nullptr;
   ASMJIT_PROPAGATE(label_node_of(Out(node), label));
 
   // A label node that is already part of the node list cannot be linked again.
